@@ -1,5 +1,72 @@
-"""Decoding of heap objects from a z3 model (for replay)."""
+"""Decoding of heap objects from a z3 model into JSON-able descriptions (for replay)."""
+import z3
+
+from .api import REG
+
+
+def _ev(model, t):
+    return model.eval(t, model_completion=True)
+
+
+def _arr(unit, name):
+    fs = unit.ctx.field_sorts.get(name)
+    return fs[1] if fs else None
+
+
+def _int(model, t):
+    v = _ev(model, t)
+    return v.as_long() if z3.is_int_value(v) else 0
+
+
+def decode_field(model, unit, ref, key, depth):
+    t = REG.fields.get(key, "int")
+    va = _arr(unit, "val_" + key)
+    if va is None:
+        return None
+    if t == "bool":
+        return z3.is_true(_ev(model, va[ref]))
+    if t == "optint":
+        na = _arr(unit, "none_" + key)
+        if na is not None and z3.is_true(_ev(model, na[ref])):
+            return None
+        return _int(model, va[ref])
+    if t.startswith("ref:"):
+        from .symexec import SV
+
+        r = _ev(model, va[ref])
+        return decode_ref(model, SV("ref", r, t[4:]), unit, depth + 1)
+    return _int(model, va[ref])
 
 
 def decode_ref(model, sv, unit, depth=0):
-    return "<ref %s>" % (sv.x,)
+    kind = sv.x or ""
+    ref = sv.z
+    if depth > 4:
+        return {"__kind__": "opaque"}
+    la = _arr(unit, "len")
+    ea = _arr(unit, "elem")
+    if kind == "file" or kind.startswith("list") or kind == "bytearray":
+        n = _int(model, la[ref]) if la is not None else 0
+        n = max(0, min(n, 64))
+        data = [(_int(model, ea[ref][i]) if ea is not None else 0) for i in range(n)]
+        if kind == "file":
+            pa = _arr(unit, "val_fpos")
+            return {"__kind__": "file", "data": [d % 256 for d in data], "pos": _int(model, pa[ref]) if pa is not None else 0}
+        return {"__kind__": "list", "data": data}
+    if kind.startswith("dict"):
+        out = {"__kind__": kind, "keys": {}}
+        for name in list(unit.ctx.field_sorts):
+            if name.startswith("has_"):
+                key = name[4:]
+                if z3.is_true(_ev(model, _arr(unit, name)[ref])):
+                    out["keys"][key] = decode_field(model, unit, ref, key, depth)
+        return out
+    if kind.startswith("obj:"):
+        out = {"__kind__": kind, "attrs": {}}
+        for name in list(unit.ctx.field_sorts):
+            if name.startswith("val_"):
+                key = name[4:]
+                if key.startswith("_") and not key.startswith("__"):
+                    out["attrs"][key] = decode_field(model, unit, ref, key, depth)
+        return out
+    return {"__kind__": "opaque"}
